@@ -205,7 +205,7 @@ func decideHist(prop, tier string, seed uint64, scratch, replays string) *Output
 
 // oraclesOn replays ops and returns the violations the property's oracles raise.
 func oraclesOn(dir string, ops []*Op, spec PropSpec, prop string) []*Violation {
-	e := &Env{dir: dir}
+	e := &Env{dir: dir, faultCtl: anyFault(ops)}
 	defer e.Close()
 	st := &OracleState{}
 	var vs []*Violation
